@@ -103,7 +103,7 @@ REG.contract('C08', O, 'OptionStore.update_project_options', variant='clean-up',
              ensures=[f"forall(Obj, lambda k: (k in new(self).options) == (k in self.options and not {GONE}))",
                       f"forall(Obj, lambda k: implies(k in new(self).options, new(self).options[k] is self.options[k]))",
                       f"forall(Obj, lambda k: (k in new(self).project_options) == (k in self.project_options and not {GONE}))"],
-             loops={1: Loop(invariant=[f"forall(Obj, lambda k: (k in self.options) == (k in old_self.options and not ({GONE.replace('self.project_options', 'old_self.project_options')} and k in __seen)))",
+             loops={'for key in potential_removed_keys': Loop(invariant=[f"forall(Obj, lambda k: (k in self.options) == (k in old_self.options and not ({GONE.replace('self.project_options', 'old_self.project_options')} and k in __seen)))",
                                        "forall(Obj, lambda k: implies(k in self.options, self.options[k] is old_self.options[k]))",
                                        f"forall(Obj, lambda k: (k in self.project_options) == (k in old_self.project_options and not ({GONE.replace('self.project_options', 'old_self.project_options')} and k in __seen)))"])},
              opaque_attrs={'subproject': Opt(Str)}, modifies=['self.options', 'self.project_options'], floor=6,
@@ -113,7 +113,7 @@ REG.contract('C08', O, 'OptionStore.update_project_options', variant='nothing-de
              requires=['forall(Obj, lambda k: implies(k in self.project_options, k in self.options))'],
              ensures=[f"forall(Obj, lambda k: (k in new(self).options) == (k in self.options and not {GONE0}))",
                       f"forall(Obj, lambda k: (k in new(self).project_options) == (k in self.project_options and not {GONE0}))"],
-             loops={1: Loop(invariant=[f"forall(Obj, lambda k: (k in self.options) == (k in old_self.options and not ({GONE0.replace('self.project_options', 'old_self.project_options')} and k in __seen)))",
+             loops={'for key in potential_removed_keys': Loop(invariant=[f"forall(Obj, lambda k: (k in self.options) == (k in old_self.options and not ({GONE0.replace('self.project_options', 'old_self.project_options')} and k in __seen)))",
                                        "forall(Obj, lambda k: implies(k in self.options, self.options[k] is old_self.options[k]))",
                                        f"forall(Obj, lambda k: (k in self.project_options) == (k in old_self.project_options and not ({GONE0.replace('self.project_options', 'old_self.project_options')} and k in __seen)))"])},
              opaque_attrs={'subproject': Opt(Str)}, modifies=['self.options', 'self.project_options'], floor=4,
